@@ -516,8 +516,11 @@ def call_key(c):
     return json.dumps(c, sort_keys=True)
 
 
-def gen_call(b, n):
-    return {"k": "gen", "basis": b, "n": n}
+def gen_call(b, n, gseed=None):
+    c = {"k": "gen", "basis": b, "n": n}
+    if gseed is not None:
+        c["gseed"] = gseed          # the `seed` argument of duplicate_checker.main (default 1234)
+    return c
 
 
 def fit_call(run, b, n, stages=None, data="data.txt", prev=False, seed=1234, niter=None, nconv=None):
@@ -707,6 +710,11 @@ def directed_corpus():
         #     analysis on good data: every stage output must be reset also on the fallback paths (touch does not truncate)
         (fit_call("r1", "core_maths", 3, data="nan.txt"), [fit_call("r1", "core_maths", 3, data="data.txt")], None, []),
         (fit_call("r1", "core_maths", 1, data="nan.txt"), [fit_call("r1", "core_maths", 1, data="data.txt")], None, []),
+        # D6: generation with an explicit shuffle seed that is falsy / unusual (0, 1): the seed is an argument of the call, so the
+        #     library is a function of it whatever numpy's global generator was left as by earlier calls
+        (gen_call("core_maths", 4, gseed=0), [gen_call("core_maths", 3)], None, []),
+        (gen_call("core_maths", 3, gseed=0), [fit_call("r2", "core_maths", 2, stages=["fit"]), gen_call("core_maths", 3, gseed=1)], None,
+         [("core_maths", 2)]),
     ]
 
 
